@@ -104,6 +104,21 @@ Theorem C17_zip_roundtrip : forall c f dir D t,
 Proof. exact zip_roundtrip. Qed.
 Print Assumptions C17_zip_roundtrip.
 
+(** The usual call, [UnzipDir(dir, r, true)]: whatever the destination held
+    before is gone, the tree is there, nothing else changed. *)
+Theorem C17_zip_roundtrip_clear : forall c f dir D t,
+  wf_tree t = true ->
+  forallb goodb (cwd c) = true ->
+  resolve (cwd c) dir = Some D ->
+  D <> [] -> ends_with_dot dir = false ->
+  forallb (fun k => is_dir_node (lookup f k)) (proper_prefixes D) = true ->
+  exists f',
+    unzip c f dir true (zip_dir t) = (XOk, f') /\
+    (forall r, lookup f' (D ++ r) = option_map (under_umask (umask c)) (lookup t r)) /\
+    (forall k, is_prefix D k = false -> lookup f' k = lookup f k).
+Proof. exact zip_roundtrip_clear. Qed.
+Print Assumptions C17_zip_roundtrip_clear.
+
 (** [ZipFile] then [UnzipDir]: the one file, same name, content and mode. *)
 Theorem C17_zip_file_roundtrip : forall c f dir D name pm d,
   goodb name = true ->
